@@ -10,7 +10,7 @@ CONSTANTS
   RelCs = {1}
   RelZs = {1, 2}
   Flags = {0, 1, 3, 4, 8}
-  Cvms = {0, 1}
+  Cvms = {0}
   TestIdx = {1, 4}
   TestLens = {2}
   SNames2 = {}
